@@ -31,7 +31,7 @@ CHECKS = {
             "A reader told the size of a stream that also carries an end marker may leave the marker unread (as liblzma does); that case only requires position <= stream end."),
     "C05": ("fault_enumeration", "fault enumeration inside proptest-generated cases: every truncation point and every read/write-call index of small streams, scripted short/interrupted I/O",
             "DESIGN.md 3/C05",
-            "For generated small inputs and every reader/writer target the fault points are enumerated: all truncation offsets (<= 4 KiB streams, sampled beyond), all read-call and write-call indices (<= 400 calls, sampled beyond) x four error kinds, short-read/short-write cycles and Interrupted at generated positions. Oracles: truncation => Err unless the clean run never needed the bytes; reached I/O error => Err of the same kind; short/interrupted I/O => identical bytes; sink error => some writer call fails.",
+            "For generated small inputs and every reader/writer target the fault points are enumerated: all truncation offsets (<= 4 KiB streams, sampled beyond), all read-call and write-call indices (<= 400 calls, sampled beyond) x four error kinds, short-read/short-write cycles, Interrupted at generated positions, short reads combined with an Interrupted every 2-5 calls; XZ reader cases also as two-stream files with stream padding read with multi-stream decoding. Oracles: truncation => Err unless the clean run never needed the bytes; reached I/O error => Err of the same kind; short/interrupted I/O => identical bytes; sink error => some writer call fails.",
             "MT readers/writers are covered by C09; BCJ/Delta streams have no framing so truncation is not applied to them; one recorded finding (empty source decodes as empty LZIP file, forced by the pinned test suite)."),
     "C07": ("exploration", "stateful property-based testing: generated write/empty-write/flush histories and read-size sequences, in-memory concatenation as model",
             "DESIGN.md 3/C07",
